@@ -26,4 +26,11 @@ theorem limits_agree_bufAddressSizes :
     isLogicError (slashBuf Limits.hwAddressSize (List.replicate 6 0) 49) = true ∧
     B.hash6 [] = UInt64.ofNat Limits.ipv6AddressSize := by decide
 
+/-- the buffer `IPv6Address::to_string` hands to `inet_ntop` (`char buffer[INET6_ADDRSTRLEN]`, `sizeof(buffer)`) is the
+    size the model's `V6.toString` uses (numeral 46); it exceeds the longest text + NUL (39 + 1), while a buffer of 39
+    would make the all-ones address throw -/
+theorem limits_agree_ipv6ToStringBufferSize :
+    (∀ a, V6.toString a = V6.toStringSized Limits.ipv6ToStringBufferSize a) ∧ 39 + 1 ≤ Limits.ipv6ToStringBufferSize ∧
+    V6.toStringSized 39 (List.replicate 16 255) = none := ⟨fun _ => rfl, by decide, by decide⟩
+
 end Tins.Props.Limits.C16
